@@ -160,40 +160,65 @@ def same_inst(a, b):
 
 
 def merge_features(T, S):
-    """walk the pair the way the merge does and record what the finding predicates need"""
+    """Walk the pair the way lyd_merge_sibling_r does (duplicate-instance cache included) and record what the finding
+    predicates look at.  For F70 the lyds pool of a consuming merge is followed: how many red-black nodes the source's sorted
+    (leaf-)lists have put into it and whether one is still free when an unmatched instance of a (leaf-)list that libyang does
+    NOT keep sorted is linked next to existing instances (lyds_insert2 then sorts / compares what must not be)."""
     f = set()
-    state = {"pool": False}
+    st = {"pool": 0}
 
     def level(tk, sk):
-        # the source siblings of one level, in order
-        prev_sn = None
+        tk = list(tk)
+        treed = set()                      # target groups that got a sorting tree during this merge
+        used = []                          # [(representative, used, count)]
+        prev = None
         for x in sk:
             if x.sn.iskey:
                 continue
-            if is_sorted_kind(x.sn) and prev_sn is not x.sn:
-                if sum(1 for y in sk if y.sn is x.sn) >= 2:
-                    state["pool"] = True                     # the source leader has a sorting tree: the pool gets its nodes
-            prev_sn = x.sn
-            m = [y for y in tk if y.sn is x.sn and same_inst(y, x)]
-            if m:
-                y = m[0]
-                if x.sn.kind == "leaflist" and (y.flags & tg.F_DFLT) and not (x.flags & tg.F_DFLT):
+            if is_sorted_kind(x.sn) and prev is not x.sn:
+                cnt = sum(1 for y in sk if y.sn is x.sn)
+                if cnt >= 2:
+                    st["pool"] += cnt
+                    f.add("pool")
+            prev = x.sn
+            cand = [y for y in tk if y.sn is x.sn and same_inst(y, x)]
+            m = None
+            if cand:
+                if x.sn.dup_inst():
+                    e = [u for u in used if full_eq(u[0], x)]
+                    if e:
+                        if e[0][1] < e[0][2]:
+                            m = cand[e[0][1]] if e[0][1] < len(cand) else None
+                            e[0][1] += 1
+                    else:
+                        used.append([x, 1, len(cand)])
+                        m = cand[0]
+                else:
+                    m = cand[0]
+            elif x.sn.dup_inst():
+                used.append([x, 1, 1])
+            if m is not None:
+                if x.sn.kind == "leaflist" and (m.flags & tg.F_DFLT) and not (x.flags & tg.F_DFLT):
                     f.add("explicit-leaflist-instance-on-default")                  # F71
                 if x.sn.kind in ("container", "list"):
-                    level(y.kids, x.kids)
+                    level(m.kids, x.kids)
             else:
-                if state["pool"] and is_llist(x.sn) and not is_sorted_kind(x.sn) and any(y.sn is x.sn for y in tk):
-                    f.add("pool-nonsorted-insert")                                  # F70
-                if state["pool"] and is_llist(x.sn) and not is_sorted_kind(x.sn):
-                    f.add("pool-nonsorted-any")
+                grp = [y for y in tk if y.sn is x.sn]
+                if st["pool"] > 0 and grp:
+                    if not is_sorted_kind(x.sn):
+                        f.add("pool-nonsorted-insert")                              # F70
+                    if not ((is_sorted_kind(x.sn) and len(grp) >= 2) or x.sn.sid in treed):
+                        st["pool"] = max(0, st["pool"] - len(grp))
+                        treed.add(x.sn.sid)
+                    if st["pool"] > 0:
+                        st["pool"] -= 1
+                tk.append(x)
     level(T, S)
-    if state["pool"]:
-        f.add("pool")
     return sorted(f)
 
 
 def consecutive_lists(sibs):
-    """two different (leaf-)lists directly after each other among the duplicated siblings, the second with >= 3 instances (F55)"""
+    """two different (leaf-)lists directly after each other among the duplicated siblings, the second one sorted (F55)"""
     for i in range(1, len(sibs)):
         a, b = sibs[i - 1].sn, sibs[i].sn
         if a is not b and is_llist(a) and is_llist(b) and is_sorted_kind(b) and sum(1 for x in sibs if x.sn is b) >= 2:
@@ -201,14 +226,30 @@ def consecutive_lists(sibs):
     return False
 
 
+def top_in_choice(node, parent_of):
+    """the top-level data ancestor-or-self of the node is defined inside a choice (F72)"""
+    n = node
+    while parent_of.get(id(n)) is not None:
+        n = parent_of[id(n)]
+    return n.sn.parent is not None
+
+
 def classify(component, what, case):
-    law, feat, verdict = case.get("law"), set(case.get("features", [])), case.get("verdict")
-    if case.get("op") in ("mlaw", "merge", "indep") and "pool-nonsorted-any" in feat and (case.get("opts", 0) & M_DESTRUCT or case.get("op") == "mlaw"):
-        if law in ("destruct", "dcanon", "dmerge", "crash", "order", "disagree"):
+    op, law, feat = case.get("op"), case.get("law"), set(case.get("features", []))
+    if "pool-nonsorted-insert" in feat:
+        if op == "mlaw" and law in ("destruct", "dcanon", "dptr"):
             return "F70"
-    if case.get("op") == "mlaw" and law == "containsx" and "explicit-leaflist-instance-on-default" in feat:
+        if op == "merge" and law == "destruct":
+            return "F70"
+        if op == "indep" and (case.get("opts", 0) & M_DESTRUCT) and law == "order":
+            return "F70"
+        if law == "crash" and (op == "mlaw" or (case.get("opts") or 0) & M_DESTRUCT) and "lyds_insert2" in case.get("stderr", ""):
+            return "F70"
+    if op == "mlaw" and law == "containsx" and "explicit-leaflist-instance-on-default" in feat:
         return "F71"
-    if case.get("op") == "dlaw" and law == "order" and "consecutive-lists" in feat:
+    if op in ("dlaw", "dup") and law == "dup" and case.get("verdict") == "Enotfound" and "top-in-choice" in feat and (case.get("mode") or 0) >= 2:
+        return "F72"
+    if op == "dlaw" and law == "order" and "consecutive-lists" in feat:
         return "F55"
     return None
 
@@ -355,7 +396,51 @@ def payload(c, op, law, verdict, opts=None, extra=None):
     return p
 
 
-def process_merge(cx, schemas, cases, tag, rng):
+def sanitizer_line(err):
+    for l in err.split("\n"):
+        if "ERROR: AddressSanitizer" in l or "runtime error:" in l or "ERROR: LeakSanitizer" in l:
+            return l.strip()[:200]
+    tail = [l for l in err.strip().split("\n") if l.strip()]
+    return tail[-1][:200] if tail else "no message"
+
+
+def f70_budget(cx):
+    """While F70 is an open (known) finding every predicted instance costs a sanitizer abort or a differing result; run a
+    bounded number of them (the predicate is code: merge_features) and leave the consuming merge of the others out."""
+    if cx.findings.get("F70", {}).get("status") == "known":
+        return {"left": cx.n(30, 150)}
+    return {"left": 1 << 60}
+
+
+def take_f70(c, budget):
+    if "pool-nonsorted-insert" not in c.feat:
+        return True
+    if budget["left"] > 0:
+        budget["left"] -= 1
+        return True
+    return False
+
+
+def strip_f71(s, token):
+    """dump without the flags that the F71 repair changes (leaf-list default/new flags, default flags of containers)"""
+    if token == "-":
+        return token
+    f = tg.untok(s, token)
+
+    def walk(n):
+        if n.sn.kind == "leaflist":
+            n.flags &= ~(tg.F_DFLT | tg.F_NEW)
+        if n.sn.kind == "container":
+            n.flags &= ~tg.F_DFLT
+        for k in n.kids:
+            walk(k)
+    for n in f:
+        walk(n)
+    return tg.tok(f)
+
+
+def process_merge(cx, schemas, cases, tag, rng, all_opts=True, laws=1.3, budget=None):
+    budget = budget or f70_budget(cx)
     # ---- wf: the generated validated trees satisfy the theorems' hypothesis (model only)
     lines, idx = [], {}
     for k, c in enumerate(cases):
@@ -367,70 +452,90 @@ def process_merge(cx, schemas, cases, tag, rng):
             lines.append("%s %s wf %s %s" % (i, COMP, d, t))
             idx[i] = c
     rm = run_model(cx, schemas, lines)
-    for i, c in idx.items():
+    for l in lines:
+        i = l.split()[0]
         r = rm.get(i, ["err", "NoReply"])
         cx.count(None, False, "merge:wf:" + " ".join(r[:2]))
         if r[:2] != ["ok", "1"]:
-            cx.disagree(COMP, [l for l in lines if l.startswith(i + " ")][0][:400], ["ok", "1"], r)
+            cx.disagree(COMP, l[:600], ["ok", "1"], r)
     # ---- merge correspondence: all option sets; api variants on a share
     lines, idx = [], {}
     for k, c in enumerate(cases):
         d = tg.hx(c.s.dsl())
-        for o in range(8):
-            apis = [0]
-            if rng.random() < 0.15:
-                apis.append(1)
-            if rng.random() < 0.15:
-                apis.append(2)
+        destr = take_f70(c, budget)
+        if not destr:
+            cx.dist["consuming merge left out (F70 instance beyond the budget)"] += 1
+        opts = set(range(8)) if all_opts else set([rng.randrange(8), rng.randrange(8) | 1, rng.randrange(4) * 2])
+        opts = sorted(opts | set(o & ~M_DESTRUCT for o in opts))       # the copying twin of every consuming merge
+        apis = [0]
+        if rng.random() < 0.2:
+            apis.append(1)
+        if rng.random() < 0.2:
+            apis.append(2)
+        for o in opts:
+            if (o & M_DESTRUCT) and not destr:
+                continue
             for api in apis:
                 i = "m%s%d.%d.%d" % (tag, k, o, api)
                 lines.append("%s %s merge %s %s %s %d %d" % (i, COMP, d, c.t, c.src, o, api))
-                idx[i] = (c, o, api)
+                idx[i] = (c, o, api, k)
     ri, crashes = run_impl(cx, schemas, lines)
     rm = run_model(cx, schemas, lines)
     crash_ids = {c.get("id"): c for c in crashes}
     for l in lines:
         i = l.split()[0]
-        c, o, api = idx[i]
+        c, o, api, k = idx[i]
         a, b = ri.get(i, ["err", "NoReply"]), rm.get(i, ["err", "NoReply"])
         nontrivial = a[0] == "ok" and a[1] not in (c.t, "-")
         cx.count((c.s.name, c.t, c.src, o, api), nontrivial, "merge:%s:%s" % (("api%d" % api), a[0] if a[0] == "ok" else a[1]))
         if i in crash_ids:
             cx.fail(COMP, "harness aborted in lyd_merge (%s)" % sanitizer_line(crash_ids[i].get("stderr", "")),
-                    payload(c, "merge", "crash", "crash", o, {"api": api, "stderr": crash_ids[i].get("stderr", "")[-1500:]}))
+                    payload(c, "merge", "crash", "crash", o, {"api": api, "stderr": crash_ids[i].get("stderr", "")[-2500:]}))
             continue
-        if a != b:
-            if (o & M_DESTRUCT) and classify(COMP, "", payload(c, "merge", "disagree", "differs", o)) == "F70":
-                # the consuming merge differs from the model of the consuming merge: reported through the law `destruct`
-                cx.fail(COMP, MLAW_TEXT["destruct"], payload(c, "merge", "disagree", "differs", o, {"api": api}))
+        if o & M_DESTRUCT:
+            # the law "same result whether or not the source is consumed", on the two implementation results
+            ic = "m%s%d.%d.%d" % (tag, k, o & ~M_DESTRUCT, api)
+            ac = ri.get(ic)
+            if rm.get(i) != rm.get(ic):
+                # flag patterns libyang never produces (an inner node flagged default above explicit children): the copy is
+                # normalised by lyd_dup, the moved subtree is not — the model has both, the law is not claimed there
+                cx.dist["merge: consuming and copying merge differ in the model too (inconsistent flags)"] += 1
+            elif ac is not None and ac[0] == "ok" and ic not in crash_ids and a != ac:
+                cx.fail(COMP, MLAW_TEXT["destruct"] + " [opts %d api %d]" % (o, api), payload(c, "merge", "destruct", "differs", o, {"api": api}))
                 continue
-            cx.disagree(COMP, l[:2000], a, b)
+        if a != b:
+            if "explicit-leaflist-instance-on-default" in c.feat and a[0] == "ok" and b[0] == "ok" and \
+                    [strip_f71(c.s, a[1])] + a[2:] == [strip_f71(c.s, b[1])] + b[2:]:
+                # the implementation carries the repair of F71 (the matched leaf-list instance becomes explicit), the model the pinned behaviour
+                cx.dist["merge: differs from the model only in the flags F71's repair changes"] += 1
+                continue
+            cx.disagree(COMP, l[:20000], a, b)
     if lines:
         cx.sample(lines[rng.randrange(len(lines))][:600])
     # ---- laws
     lines, idx = [], {}
     for k, c in enumerate(cases):
         d = tg.hx(c.s.dsl())
-        for o in (0, M_DEFAULTS, M_WITH_FLAGS, M_DEFAULTS | M_WITH_FLAGS):
+        four = [0, M_DEFAULTS, M_WITH_FLAGS, M_DEFAULTS | M_WITH_FLAGS]
+        if laws >= 4:
+            sel = four
+        else:
+            sel = [rng.choice(four)]
+            if rng.random() < laws - 1:
+                sel.append(rng.choice([o for o in four if o != sel[0]]))
+        for o in sel:
+            destr = take_f70(c, budget)
             i = "l%s%d.%d" % (tag, k, o)
-            lines.append("%s %s mlaw %s %s %s %d" % (i, COMP, d, c.t, c.src, o))
+            lines.append("%s %s mlaw %s %s %s %d %d" % (i, COMP, d, c.t, c.src, o, 1 if destr else 0))
             idx[i] = (c, o)
     rep, crashes = run_impl(cx, schemas, lines)
     crash_ids = {c.get("id"): c for c in crashes}
     for i, (c, o) in idx.items():
         if i in crash_ids:
             cx.fail(COMP, "harness aborted while the merge laws were evaluated (%s)" % sanitizer_line(crash_ids[i].get("stderr", "")),
-                    payload(c, "mlaw", "crash", "crash", o, {"stderr": crash_ids[i].get("stderr", "")[-1500:]}))
+                    payload(c, "mlaw", "crash", "crash", o, {"stderr": crash_ids[i].get("stderr", "")[-2500:]}))
             continue
         eval_mlaw(cx, c, o, rep.get(i, ["err", "NoReply"]))
-
-
-def sanitizer_line(err):
-    for l in err.split("\n"):
-        if "ERROR: AddressSanitizer" in l or "runtime error:" in l or "ERROR: LeakSanitizer" in l:
-            return l.strip()[:200]
-    tail = [l for l in err.strip().split("\n") if l.strip()]
-    return tail[-1][:200] if tail else "no message"
 
 
 def eval_mlaw(cx, c, o, reply):
@@ -442,8 +547,10 @@ def eval_mlaw(cx, c, o, reply):
     cx.count(("mlaw", c.s.name, c.t, c.src, o), c.src != "-", "merge:mlaw:" + ("all-hold" if ok else "some-fail"))
     for k in MLAW_OK:
         if k in v and v[k] != MLAW_OK[k]:
-            if c.variant == "flags" and k in ("destruct", "containsx", "keeps", "empty", "emptycmp", "idem"):
-                # flag patterns that libyang itself never produces: the laws are only claimed for consistent flags
+            if k == "dmerge" and v[k] == "Enot":
+                continue                                # the consuming merge was left out
+            if c.variant == "flags" and k in ("destruct", "containsx", "keeps", "empty", "emptycmp", "idem", "idemcmp"):
+                # flag patterns that libyang itself never produces: these laws are only claimed for consistent flags
                 cx.dist["mlaw-skipped(flags-variant):" + k] += 1
                 continue
             cx.fail(COMP, MLAW_TEXT[k] + " [opts %d]" % o, payload(c, "mlaw", k, v[k], o))
@@ -453,12 +560,15 @@ def eval_mlaw(cx, c, o, reply):
 # independence after a merge
 # ----------------------------------------------------------------------------------------------------
 
-def process_indep(cx, schemas, cases, tag, rng, per_case):
+def process_indep(cx, schemas, cases, tag, rng, per_case, budget=None):
+    budget = budget or f70_budget(cx)
     lines, idx = [], {}
     for k, c in enumerate(cases):
         d = tg.hx(c.s.dsl())
         for j in range(per_case):
             o = rng.randrange(8)
+            if (o & M_DESTRUCT) and not take_f70(c, budget):
+                o &= ~M_DESTRUCT
             seed = rng.randrange(1 << 30)
             i = "i%s%d.%d" % (tag, k, j)
             lines.append("%s %s indep %s %s %s %d %d" % (i, COMP, d, c.t, c.src, o, seed))
@@ -468,18 +578,21 @@ def process_indep(cx, schemas, cases, tag, rng, per_case):
     for i, (c, o, seed) in idx.items():
         if i in crash_ids:
             cx.fail(COMP, "sanitizer abort after a merge while an operand was edited / freed (%s)" % sanitizer_line(crash_ids[i].get("stderr", "")),
-                    payload(c, "indep", "crash", "crash", o, {"seed": seed, "stderr": crash_ids[i].get("stderr", "")[-1500:]}))
+                    payload(c, "indep", "crash", "crash", o, {"seed": seed, "stderr": crash_ids[i].get("stderr", "")[-2500:]}))
             continue
-        r = rep.get(i, ["err", "NoReply"])
-        if r[0] != "ok":
-            cx.fail(COMP, "indep op failed: " + " ".join(r[:2]), payload(c, "indep", "harness", " ".join(r[:2]), o, {"seed": seed}))
-            continue
-        v = dict(f.split("=", 1) for f in r[1:])
-        ok = all(v.get(k, ILAW_OK[k]) == ILAW_OK[k] for k in ILAW_OK)
-        cx.count(("indep", c.s.name, c.t, c.src, o, seed), True, "merge:indep:" + ("all-hold" if ok else "some-fail"))
-        for k in ILAW_OK:
-            if k in v and v[k] != ILAW_OK[k]:
-                cx.fail(COMP, ILAW_TEXT[k] + " [opts %d]" % o, payload(c, "indep", k, v[k], o, {"seed": seed}))
+        eval_indep(cx, c, o, seed, rep.get(i, ["err", "NoReply"]))
+
+
+def eval_indep(cx, c, o, seed, r):
+    if r[0] != "ok":
+        cx.fail(COMP, "indep op failed: " + " ".join(r[:2]), payload(c, "indep", "harness", " ".join(r[:2]), o, {"seed": seed}))
+        return
+    v = dict(f.split("=", 1) for f in r[1:])
+    ok = all(v.get(k, ILAW_OK[k]) == ILAW_OK[k] for k in ILAW_OK)
+    cx.count(("indep", c.s.name, c.t, c.src, o, seed), True, "merge:indep:" + ("all-hold" if ok else "some-fail"))
+    for k in ILAW_OK:
+        if k in v and v[k] != ILAW_OK[k]:
+            cx.fail(COMP, ILAW_TEXT[k] + " [opts %d]" % o, payload(c, "indep", k, v[k], o, {"seed": seed}))
 
 
 # ----------------------------------------------------------------------------------------------------
@@ -487,15 +600,28 @@ def process_indep(cx, schemas, cases, tag, rng, per_case):
 # ----------------------------------------------------------------------------------------------------
 
 def flat(forest):
-    """(node, parent, following siblings incl. itself) in DFS order"""
-    out = []
+    """(node, following siblings incl. itself) in DFS order, and the parent map"""
+    out, par = [], {}
 
     def walk(sibs, parent):
         for j, n in enumerate(sibs):
-            out.append((n, parent, sibs[j:]))
+            par[id(n)] = parent
+            out.append((n, sibs[j:]))
             walk(n.kids, n)
     walk(forest, None)
-    return out
+    return out, par
+
+
+def dup_features(nodes, par, ni, o, mode):
+    feat = []
+    n, sibs = nodes[ni]
+    if mode % 2 == 1 and consecutive_lists(sibs):
+        feat.append("consecutive-lists")
+    if mode >= 2:
+        group = sibs if (mode % 2 == 1 and par[id(n)] is None) else [n]
+        if any(top_in_choice(x, par) for x in group):
+            feat.append("top-in-choice")
+    return feat
 
 
 def process_dup(cx, schemas, cases, tag, rng, per_tree, laws_per_tree):
@@ -504,15 +630,14 @@ def process_dup(cx, schemas, cases, tag, rng, per_tree, laws_per_tree):
         if c.t == "-":
             continue
         d = tg.hx(c.s.dsl())
-        F = tg.untok(c.s, c.t)
-        nodes = flat(F)
+        nodes, par = flat(tg.untok(c.s, c.t))
         for j in range(per_tree):
             ni = 0 if rng.random() < 0.2 else rng.randrange(len(nodes))
             o = rng.choice(DUP_OPTS)
             mode = rng.randrange(4)
             i = "d%s%d.%d" % (tag, k, j)
             lines.append("%s %s dup %s %s %d %d %d" % (i, COMP, d, c.t, ni, o, mode))
-            idx[i] = (c, ni, o, mode)
+            idx[i] = (c, ni, o, mode, dup_features(nodes, par, ni, o, mode))
         for j in range(laws_per_tree):
             ni = 0 if rng.random() < 0.3 else rng.randrange(len(nodes))
             o = rng.choice(DUP_OPTS)
@@ -520,24 +645,26 @@ def process_dup(cx, schemas, cases, tag, rng, per_tree, laws_per_tree):
             seed = rng.randrange(1 << 30)
             i = "e%s%d.%d" % (tag, k, j)
             llines.append("%s %s dlaw %s %s %d %d %d %d" % (i, COMP, d, c.t, ni, o, mode, seed))
-            feat = []
-            if mode % 2 == 1 and consecutive_lists(nodes[ni][2]):
-                feat.append("consecutive-lists")
-            lidx[i] = (c, ni, o, mode, seed, feat)
+            lidx[i] = (c, ni, o, mode, seed, dup_features(nodes, par, ni, o, mode))
     ri, crashes = run_impl(cx, schemas, lines)
     rm = run_model(cx, schemas, lines)
     crash_ids = {c.get("id"): c for c in crashes}
     for l in lines:
         i = l.split()[0]
-        c, ni, o, mode = idx[i]
+        c, ni, o, mode, feat = idx[i]
         a, b = ri.get(i, ["err", "NoReply"]), rm.get(i, ["err", "NoReply"])
         cx.count(("dup", c.s.name, c.t, ni, o, mode), a[0] == "ok", "merge:dup:mode%d:%s" % (mode, a[0] if a[0] == "ok" else a[1]))
         if i in crash_ids:
             cx.fail(COMP, "harness aborted in lyd_dup (%s)" % sanitizer_line(crash_ids[i].get("stderr", "")),
-                    dup_payload(c, "dup", "crash", "crash", ni, o, mode, None, [], crash_ids[i].get("stderr", "")))
+                    dup_payload(c, "dup", "crash", "crash", ni, o, mode, None, feat, crash_ids[i].get("stderr", "")))
             continue
         if a != b:
-            cx.disagree(COMP, l[:2000], a, b)
+            if a[:2] == ["err", "Enotfound"] and b[0] == "ok" and mode >= 2:
+                # duplication into the second context fails although it has the same module: a failure of the property, not of the model
+                cx.fail(COMP, "duplication into another context with the same modules fails [opts %d mode %d]" % (o, mode),
+                        dup_payload(c, "dup", "dup", "Enotfound", ni, o, mode, None, feat))
+                continue
+            cx.disagree(COMP, l[:20000], a, b)
     if lines:
         cx.sample(lines[rng.randrange(len(lines))][:600])
     rep, crashes = run_impl(cx, schemas, llines)
@@ -547,27 +674,115 @@ def process_dup(cx, schemas, cases, tag, rng, per_tree, laws_per_tree):
             cx.fail(COMP, "sanitizer abort after a dup while original / duplicate was edited / freed (%s)" % sanitizer_line(crash_ids[i].get("stderr", "")),
                     dup_payload(c, "dlaw", "crash", "crash", ni, o, mode, seed, feat, crash_ids[i].get("stderr", "")))
             continue
-        r = rep.get(i, ["err", "NoReply"])
-        if r[0] != "ok":
-            cx.fail(COMP, "dlaw op failed: " + " ".join(r[:2]), dup_payload(c, "dlaw", "harness", " ".join(r[:2]), ni, o, mode, seed, feat))
-            continue
-        v = dict(f.split("=", 1) for f in r[1:])
-        ok = all(v.get(k, DLAW_OK[k]) == DLAW_OK[k] for k in DLAW_OK)
-        cx.count(("dlaw", c.s.name, c.t, ni, o, mode, seed), True, "merge:dlaw:" + ("all-hold" if ok else "some-fail"))
-        for k in DLAW_OK:
-            if k in v and v[k] != DLAW_OK[k]:
-                if c.variant == "flags" and k in ("eq", "flags"):
-                    cx.dist["dlaw-skipped(flags-variant):" + k] += 1
-                    continue
-                cx.fail(COMP, DLAW_TEXT[k] + " [opts %d mode %d]" % (o, mode), dup_payload(c, "dlaw", k, v[k], ni, o, mode, seed, feat))
+        eval_dlaw(cx, c, ni, o, mode, seed, feat, rep.get(i, ["err", "NoReply"]))
+
+
+def eval_dlaw(cx, c, ni, o, mode, seed, feat, r):
+    if r[0] != "ok":
+        cx.fail(COMP, "dlaw op failed: " + " ".join(r[:2]), dup_payload(c, "dlaw", "harness", " ".join(r[:2]), ni, o, mode, seed, feat))
+        return
+    v = dict(f.split("=", 1) for f in r[1:])
+    ok = all(v.get(k, DLAW_OK[k]) == DLAW_OK[k] for k in DLAW_OK)
+    cx.count(("dlaw", c.s.name, c.t, ni, o, mode, seed), True, "merge:dlaw:" + ("all-hold" if ok else "some-fail"))
+    for k in DLAW_OK:
+        if k in v and v[k] != DLAW_OK[k]:
+            if c.variant == "flags" and k in ("eq", "flags"):
+                cx.dist["dlaw-skipped(flags-variant):" + k] += 1
+                continue
+            cx.fail(COMP, DLAW_TEXT[k] + " [opts %d mode %d]" % (o, mode), dup_payload(c, "dlaw", k, v[k], ni, o, mode, seed, feat))
 
 
 def dup_payload(c, op, law, verdict, ni, o, mode, seed, feat, stderr=None):
     p = {"op": op, "law": law, "verdict": verdict, "opts": o, "mode": mode, "node": ni, "seed": seed, "features": feat, "variant": c.variant,
          "schema_dsl": c.s.dsl().decode(), "schema_yang": c.s.yang(), "T": c.t, "T_text": tg.pretty(c.s, tg.untok(c.s, c.t))[:3000]}
     if stderr:
-        p["stderr"] = stderr[-1500:]
+        p["stderr"] = stderr[-2500:]
     return p
+
+
+# ----------------------------------------------------------------------------------------------------
+# exhaustive small cases: every ordered pair of the small states of one node kind (the rest of the tree absent)
+# ----------------------------------------------------------------------------------------------------
+
+def exhaustive_schema():
+    T, S = tg.Ty, tg.SNode
+    return tg.Schema("hexh", [S("container", "c", kids=[
+        S("leaf", "a", ty=T("string"), dflt=b"da"),
+        S("leaf", "b", ty=T("string")),
+        S("leaflist", "sl", ty=T("uint8")),
+        S("leaflist", "dl", ty=T("string"), dflts=[b"a", b"b"]),
+        S("leaflist", "ul", ty=T("uint8"), userord=True),
+        S("leaflist", "stl", ty=T("uint8"), userord=True, config=False),
+        S("list", "kl", keys=[], userord=True, config=False, kids=[S("leaf", "v", ty=T("uint8"), config=False),
+                                                                   S("leaf", "w", ty=T("string"), config=False, dflt=b"dw")]),
+        S("list", "l", keys=["k"], kids=[S("leaf", "k", ty=T("uint8"), iskey=True),
+                                         S("container", "n", kids=[S("leaf", "w", ty=T("string"), dflt=b"dw")]), S("leaf", "x", ty=T("string"))]),
+        S("choice", "ch", dflt="c1", kids=[S("case", "c1", kids=[S("leaf", "x1", ty=T("string"), dflt=b"dx")]),
+                                           S("case", "c2", kids=[S("leaf", "x2", ty=T("string"))])]),
+        S("container", "pc", presence=True, kids=[S("leaf", "z", ty=T("string"))]),
+        S("container", "np", kids=[S("container", "i", kids=[S("leaf", "m", ty=T("string"), dflt=b"dm")]), S("leaf", "e", ty=T("string"))]),
+    ])])
+
+
+def seqs(vals, maxlen, dupfree):
+    out = [[]]
+    cur = [[]]
+    for _ in range(maxlen):
+        cur = [p + [v] for p in cur for v in vals if not (dupfree and v in p)]
+        out += cur
+    return out
+
+
+def exhaustive_cases(cx):
+    s = exhaustive_schema()
+    c = s.nodes[0]
+    byname = {n.name: n for n in s.nodes}
+    DN = tg.DN
+
+    def wrap(kids):
+        return [DN(c, None, kids)] if kids is not None else []
+    groups = {}
+    a, b = byname["a"], byname["b"]
+    groups["leaf"] = [None, [], [DN(a, b"da")], [DN(a, b"v")], [DN(a, b"w"), DN(b, b"1")], [DN(b, b"2")]]
+    sl = byname["sl"]
+    groups["sorted-leaflist"] = [[DN(sl, str(v).encode()) for v in q] for q in seqs([1, 2, 10], 3, True) if q == sorted(q)]
+    dl = byname["dl"]
+    groups["default-leaflist"] = [[], [DN(dl, b"a")], [DN(dl, b"b")], [DN(dl, b"a"), DN(dl, b"b")], [DN(dl, b"c")], [DN(dl, b"a"), DN(dl, b"c")]]
+    ul = byname["ul"]
+    groups["userord-leaflist"] = [[DN(ul, str(v).encode()) for v in q] for q in seqs([1, 2, 3], 3, True)]
+    stl = byname["stl"]
+    groups["state-leaflist"] = [[DN(stl, str(v).encode()) for v in q] for q in seqs([1, 2], cx.n(2, 4), False)]
+    kl = byname["kl"]
+    v_, w_ = kl.kids
+    insts = [lambda: DN(kl, None, [DN(v_, b"1")]), lambda: DN(kl, None, [DN(v_, b"2")]), lambda: DN(kl, None, [DN(v_, b"1"), DN(w_, b"dw")])]
+    groups["keyless-list"] = [[insts[i]() for i in q] for q in seqs([0, 1, 2], cx.n(2, 3), False)]
+    l = byname["l"]
+    k_, n_, x_ = l.kids
+    w2 = n_.kids[0]
+
+    def li(k, w=None, x=None):
+        kids = [DN(k_, str(k).encode())]
+        if w is not None:
+            kids.append(DN(n_, None, [DN(w2, w)]))
+        if x is not None:
+            kids.append(DN(x_, x))
+        return DN(l, None, kids)
+    groups["keyed-list"] = [[], [li(1)], [li(1, b"dw")], [li(1, b"v")], [li(1, None, b"x"), li(2)], [li(2, b"v", b"y")], [li(3), li(1, b"u")]]
+    x1, x2 = byname["x1"], byname["x2"]
+    groups["choice"] = [[], [DN(x1, b"dx")], [DN(x1, b"v")], [DN(x2, b"v")], [DN(x2, b"w")]]
+    pc, z = byname["pc"], byname["z"]
+    groups["presence"] = [[], [DN(pc, None, [])], [DN(pc, None, [DN(z, b"1")])], [DN(pc, None, [DN(z, b"2")])]]
+    np_, i_, m_, e_ = byname["np"], byname["i"], byname["m"], byname["e"]
+    groups["np-container"] = [[], [DN(np_, None, [DN(i_, None, [DN(m_, b"dm")])])], [DN(np_, None, [DN(i_, None, [DN(m_, b"v")])])],
+                              [DN(np_, None, [DN(e_, b"1")])], [DN(np_, None, [DN(i_, None, [DN(m_, b"v")]), DN(e_, b"2")])]]
+    cases = []
+    for g, states in groups.items():
+        for x in states:
+            for y in states:
+                cx_t = wrap([n.clone() for n in x]) if x is not None else []
+                cx_s = wrap([n.clone() for n in y]) if y is not None else []
+                cases.append(Case(s, cx_t, cx_s, "exhaustive-" + g))
+    return s, cases, {g: len(v) for g, v in groups.items()}
 
 
 # ----------------------------------------------------------------------------------------------------
@@ -577,12 +792,13 @@ def dup_payload(c, op, law, verdict, ni, o, mode, seed, feat, stderr=None):
 def run(cx):
     cx.rule("merge/dup: target = random valid tree over random S1 schemas (+ 2 hand schemas: sorted lists next to user-ordered / key-less / "
             "state lists; defaults at every level), source = random edit of it / independent / same / minimal / empty; trees built and "
-            "validated by libyang; shares with metadata and with foreign flag patterns; all 8 merge option sets x 3 APIs, 32 dup option "
-            "sets x 4 modes on random nodes; non-trivial = distinct (schema, target, source, opts, api) whose result differs from the "
-            "target, distinct (tree, node, opts, mode) duplicated, distinct seeded independence scripts")
+            "validated by libyang; shares with metadata and with foreign flag patterns; merge option sets x 3 APIs, 32 dup option "
+            "sets x 4 modes on random nodes; exhaustive pairs of small states per node kind x all 8 option sets; non-trivial = distinct "
+            "(schema, target, source, opts, api) whose result differs from the target, distinct (tree, node, opts, mode) duplicated, "
+            "distinct seeded independence scripts")
     rng = cx.sub_rng("schemas")
     nsch = cx.n(32, 120)
-    per = cx.n(9, 110)
+    per = cx.n(55, 800)
     schemas = hand_schemas() + [tg.gen_schema(rng, i, max_depth=rng.choice([2, 3, 3])) for i in range(nsch)]
     cases = load_corpus(cx)
     for i, s in enumerate(schemas):
@@ -593,20 +809,32 @@ def run(cx):
     for c in cases:
         c.feat = merge_features(tg.untok(c.s, c.t) if c.t != "-" else [], tg.untok(c.s, c.src) if c.src != "-" else [])
         r = vr.random()
-        if r < 0.25:
+        if r < 0.22:
             c.variant = "meta"
             c.t, c.src = decorate(vr, c.s, c.t, meta=0.25), decorate(vr, c.s, c.src, meta=0.25)
-        elif r < 0.37:
+        elif r < 0.32:
             c.variant = "flags"
             c.t, c.src = decorate(vr, c.s, c.t, meta=0.1, flags=0.2), decorate(vr, c.s, c.src, meta=0.1, flags=0.2)
         cx.dist["pair:" + c.kind] += 1
         cx.dist["variant:" + c.variant] += 1
-    for lo in range(0, len(cases), 1500):
-        chunk = cases[lo:lo + 1500]
+    budget = f70_budget(cx)
+    for lo in range(0, len(cases), 2500):
+        chunk = cases[lo:lo + 2500]
         sch = list({id(c.s): c.s for c in chunk}.values())
-        process_merge(cx, sch, chunk, "r%d" % lo, cx.sub_rng("merge%d" % lo))
-        process_indep(cx, sch, chunk, "r%d" % lo, cx.sub_rng("indep%d" % lo), per_case=cx.n(2, 3))
-        process_dup(cx, sch, chunk, "r%d" % lo, cx.sub_rng("dup%d" % lo), per_tree=cx.n(4, 6), laws_per_tree=cx.n(3, 4))
+        process_merge(cx, sch, chunk, "r%d" % lo, cx.sub_rng("merge%d" % lo), all_opts=False, laws=cx.n(1.15, 1.5), budget=budget)
+        process_indep(cx, sch, chunk, "r%d" % lo, cx.sub_rng("indep%d" % lo), per_case=1, budget=budget)
+        process_dup(cx, sch, chunk, "r%d" % lo, cx.sub_rng("dup%d" % lo), per_tree=cx.n(2, 3), laws_per_tree=1)
+    # exhaustive small cases
+    s, ecases, sizes = exhaustive_cases(cx)
+    ecases = build_trees(cx, [s], ecases)
+    for c in ecases:
+        c.feat = merge_features(tg.untok(c.s, c.t) if c.t != "-" else [], tg.untok(c.s, c.src) if c.src != "-" else [])
+        cx.dist["pair:exhaustive"] += 1
+    process_merge(cx, [s], ecases, "x", cx.sub_rng("exh"), all_opts=True, laws=cx.n(1.0, 4), budget=budget)
+    cx.exhaustive = True
+    cx.notes.append("exhaustive: all ordered pairs of the small states of one node kind, %d pairs (%s), all 8 merge option sets"
+                    % (len(ecases), ", ".join("%s %d" % kv for kv in sizes.items())))
+    cx.notes.append("pairs: %d random + %d exhaustive over %d schemas" % (len(cases), len(ecases), len(all_schemas) + 1))
 
 
 def load_corpus(cx):
@@ -619,7 +847,7 @@ def load_corpus(cx):
             j = json.load(open(os.path.join(d, fn)))
             sj = j["schema"]
             if "hand" in sj:
-                s = [x for x in hand_schemas() if x.name == sj["hand"]][0]
+                s = [x for x in hand_schemas() + [exhaustive_schema()] if x.name == sj["hand"]][0]
             else:
                 s = tg.gen_schema(random.Random(sj["gen"][0]), sj["gen"][1], **sj.get("kw", {}))
             out += [Case(s, tg.parse_dump(s, a), tg.parse_dump(s, b), "corpus") for a, b in j["pairs"]]
@@ -627,6 +855,7 @@ def load_corpus(cx):
 
 
 def replay(cx, payload):
+    """re-run the failing case of a replay file"""
     f = payload.get("failure", {}).get("case") or {}
     if "schema_dsl" not in f:
         return run(cx)
@@ -640,32 +869,33 @@ def replay(cx, payload):
     op = f.get("op")
     o = f.get("opts") or 0
     if op in ("mlaw", "merge"):
-        rep, crashes = run_impl(cx, [s], ["l0 %s mlaw %s %s %s %d" % (COMP, d, c.t, c.src, o & ~M_DESTRUCT)])
+        oc = o & ~M_DESTRUCT
+        rep, crashes = run_impl(cx, [s], ["l0 %s mlaw %s %s %s %d 1" % (COMP, d, c.t, c.src, oc)])
         if crashes:
-            cx.fail(COMP, "harness aborted while the merge laws were evaluated", payload_min(f))
+            cx.fail(COMP, "harness aborted while the merge laws were evaluated (%s)" % sanitizer_line(crashes[0].get("stderr", "")),
+                    payload_of(c, "mlaw", "crash", "crash", oc, {"stderr": crashes[0].get("stderr", "")[-2500:]}))
         else:
-            eval_mlaw(cx, c, o & ~M_DESTRUCT, rep.get("l0", ["err", "NoReply"]))
+            eval_mlaw(cx, c, oc, rep.get("l0", ["err", "NoReply"]))
+        ri, crashes = run_impl(cx, [s], ["m0 %s merge %s %s %s %d %d" % (COMP, d, c.t, c.src, o, f.get("api") or 0)])
+        rm = run_model(cx, [s], ["m0 %s merge %s %s %s %d %d" % (COMP, d, c.t, c.src, o, f.get("api") or 0)])
+        if not crashes and ri.get("m0") != rm.get("m0") and not (o & M_DESTRUCT):
+            cx.disagree(COMP, "merge (replay)", ri.get("m0"), rm.get("m0"))
     elif op == "indep":
-        rep, crashes = run_impl(cx, [s], ["i0 %s indep %s %s %s %d %d" % (COMP, d, c.t, c.src, o, f.get("seed", 0))])
-        r = rep.get("i0", ["err", "NoReply"])
-        if crashes or r[0] != "ok":
-            cx.fail(COMP, "sanitizer abort after a merge while an operand was edited / freed", payload_min(f))
+        seed = f.get("seed") or 0
+        rep, crashes = run_impl(cx, [s], ["i0 %s indep %s %s %s %d %d" % (COMP, d, c.t, c.src, o, seed)])
+        if crashes:
+            cx.fail(COMP, "sanitizer abort after a merge while an operand was edited / freed (%s)" % sanitizer_line(crashes[0].get("stderr", "")),
+                    payload_of(c, "indep", "crash", "crash", o, {"seed": seed, "stderr": crashes[0].get("stderr", "")[-2500:]}))
         else:
-            v = dict(x.split("=", 1) for x in r[1:])
-            for k in ILAW_OK:
-                if k in v and v[k] != ILAW_OK[k]:
-                    cx.fail(COMP, ILAW_TEXT[k], payload_min(f))
+            eval_indep(cx, c, o, seed, rep.get("i0", ["err", "NoReply"]))
     elif op in ("dlaw", "dup"):
-        rep, crashes = run_impl(cx, [s], ["e0 %s dlaw %s %s %d %d %d %d" % (COMP, d, c.t, f.get("node", 0), o, f.get("mode", 0), f.get("seed") or 0)])
-        r = rep.get("e0", ["err", "NoReply"])
-        if crashes or r[0] != "ok":
-            cx.fail(COMP, "sanitizer abort after a dup while original / duplicate was edited / freed", payload_min(f))
+        ni, mode, seed, feat = f.get("node") or 0, f.get("mode") or 0, f.get("seed") or 0, f.get("features", [])
+        rep, crashes = run_impl(cx, [s], ["e0 %s dlaw %s %s %d %d %d %d" % (COMP, d, c.t, ni, o, mode, seed)])
+        if crashes:
+            cx.fail(COMP, "sanitizer abort after a dup while original / duplicate was edited / freed (%s)" % sanitizer_line(crashes[0].get("stderr", "")),
+                    dup_payload(c, "dlaw", "crash", "crash", ni, o, mode, seed, feat, crashes[0].get("stderr", "")))
         else:
-            v = dict(x.split("=", 1) for x in r[1:])
-            for k in DLAW_OK:
-                if k in v and v[k] != DLAW_OK[k]:
-                    cx.fail(COMP, DLAW_TEXT[k], payload_min(f))
+            eval_dlaw(cx, c, ni, o, mode, seed, feat, rep.get("e0", ["err", "NoReply"]))
 
 
-def payload_min(f):
-    return dict(f)
+payload_of = payload
